@@ -65,7 +65,7 @@ def main():
     if thorough:
         gens = [("ChoicesFull", 2, 3), ("ChoicesMini", 3, 2)]
     else:
-        gens = [("ChoicesFull", 2, 1), ("ChoicesCore", 2, 3)]
+        gens = [("ChoicesFull", 2, 1), ("ChoicesCore", 2, 2)]
     edges = []
     for gen_choices, gen_items, gen_edits in gens:
         gen = vlib.tlc("MCDevMode", "gen.cfg", files={"gen.cfg": cfg_text("DevMode_gen.cfg", MaxItems=gen_items, Choices=gen_choices, MaxEdits=gen_edits)},
@@ -93,8 +93,8 @@ def main():
     work = os.path.join(hd, work_rel)
     vlib.write_ndjson(os.path.join(sc, "edges.ndjson"), uniq)
     vlib.write_ndjson(os.path.join(sc, "texts.ndjson"), text_cases)
-    max_cases = 20000 if thorough else 3000
-    max_unfaithful = 0 if thorough else 1500      # 0 = all
+    max_cases = 20000 if thorough else 2400
+    max_unfaithful = 0 if thorough else 1200      # 0 = all
     conf = {"edges": os.path.join(sc, "edges.ndjson"), "texts": os.path.join(sc, "texts.ndjson"),
             "work": work, "work_rel": work_rel, "seed": ck.seed, "max_cases": max_cases, "max_unfaithful": max_unfaithful, "pkg_size": 400,
             "corrupt": corrupt}
